@@ -9,10 +9,20 @@ inversion) so that the real simulators run on them.
 
 SimPool semantics (each tied to multiprocess/pool.py and validated against the real pathos pool by the conformance runs of the
 check): `processes` workers forked from the parent (each inherits the parent's generator state and gets its own pid), the
-initializer runs once in each; map_async(f, it) cuts `it` into chunks of ceil(len / (4 processes)) consecutive items; EVERY CHUNK
+initializer runs once in each; `processes=None` (the engines' default nb_of_processes) asks the operating system for the number
+of CPUs - a scripted environment answer (Harness.cpus), `os.cpu_count() or 1` as in multiprocess/pool.py; a number < 1 raises
+ValueError; map_async(f, it) cuts `it` into chunks of ceil(len / (4 processes)) consecutive items; EVERY CHUNK
 gets its own dill round-trip copy of f (the engines pass closures, which are pickled by value, so each chunk sees the parent's
 pre-drawn deques as they were at submission); the worker that runs chunk k is an environment answer (default round robin);
 results come back in index order and the callback runs once in the parent.
+
+Histories. One Harness may span several pricings made one after the other on the same (re-used) library objects, as in reality
+the generator state left by one pricing is the state the next one starts from: `Harness.mark()` returns the id of the next sample,
+so that the samples of one pricing are those with mark_before <= id < mark_after.
+
+Untraced draws. `Installed` snapshots the state of the REAL numpy / `random` global generators on entry and compares on exit: a
+difference means the library drew from a function the tracing generator does not replace (Harness.untraced is set and the check
+raises - never a silent pass).
 """
 from __future__ import annotations
 
@@ -58,12 +68,19 @@ class Ctx:
 class Harness:
     """Owns every source of nondeterminism of one engine run."""
 
-    def __init__(self, chooser, boot="A"):
+    def __init__(self, chooser, boot="A", cpus=2):
         self.chooser = chooser
-        self.parent = Ctx("parent", 1000, ("boot", boot))
+        self.cpus = cpus  # scripted answer of os.cpu_count() (None = the OS cannot tell), read when a pool is built with processes=None
+        self.untraced = []
+        self.unattributed = 0  # variates drawn outside a sample and outside a pre-computation
+        self.in_pre = 0
+        # a run "repeated" is repeated later and by another OS process: besides the pre-existing generator state, the boot
+        # label moves the clock and the pid of the parent (what a time / pid derived seed is made of)
+        k = {"A": 0, "B": 1, "R": 2}.get(boot, 3)
+        self.parent = Ctx("parent", 1000 + 7 * k, ("boot", boot))
         self.ctx = self.parent
-        self.next_pid = 2000
-        self.now = 1_700_000_000
+        self.next_pid = 2000 + 100 * k
+        self.now = 1_700_000_000 + 4321 * k
         self.sample = None  # id of the sample being simulated
         self.samples = {}  # sid -> {"tags": set, "ctx": name, "level":..., "info":...}
         self.n_samples = 0
@@ -79,6 +96,8 @@ class Harness:
         tags = [(c.stream, start + i) for i in range(n)]
         if self.sample is not None:
             self.samples[self.sample]["tags"].update(tags)
+        elif not self.in_pre:
+            self.unattributed += n
         self.last_tags = tags
         return tags
 
@@ -119,6 +138,8 @@ class Harness:
         c.pypos += 1
         if self.sample is not None:
             self.samples[self.sample]["tags"].add(t)
+        elif not self.in_pre:
+            self.unattributed += 1
         return int(_u(*t) * (1 << k))
 
     def default_rng(self, s=None):
@@ -150,6 +171,10 @@ class Harness:
     def end_sample(self):
         self.sample = None
 
+    def mark(self):
+        """id of the next sample: the samples of one pricing of a history are those in [mark before, mark after)"""
+        return self.n_samples
+
 
 H = None  # the harness of the run in progress (module global: survives dill copies of library objects)
 
@@ -166,7 +191,12 @@ class SimPool:
     def __init__(self, processes=None, initializer=None, initargs=()):
         h = H
         h.pools += 1
-        self.n = processes if processes else 2
+        if processes is None:
+            processes = h.cpus or 1  # multiprocess/pool.py: `processes = os.cpu_count() or 1`
+        if processes < 1:
+            raise ValueError("Number of processes must be at least 1")
+        self.n = processes
+        h.events.append(("pool", h.ctx.name, self.n, h.n_samples))
         self.workers = [h.fork(f"pool{h.pools}-w{k}") for k in range(self.n)]
         for w in self.workers:
             prev, h.ctx = h.ctx, w
@@ -245,6 +275,7 @@ class Installed:
 
         h = self.h
         H = h
+        self._real_state = (_freeze(npr.get_state()), pyrandom.getstate())
         for name in ("uniform", "random_sample", "normal", "poisson", "choice", "default_rng"):
             self._set(npr, name, getattr(h, name))
         self._set(npr, "random", h.random_sample)
@@ -269,7 +300,11 @@ class Installed:
         def pre_computation(sim, mc_paths, product):
             c = H.ctx
             s0, p0 = c.stream, c.pos
-            orig_pre(sim, mc_paths, product)
+            H.in_pre += 1
+            try:
+                orig_pre(sim, mc_paths, product)
+            finally:
+                H.in_pre -= 1
             s1, p1 = c.stream, c.pos
             nb = len(sim._times) - 1
             dim = sim.process.dimension()
@@ -328,7 +363,20 @@ class Installed:
 
     def __exit__(self, *a):
         global H
+        import random as pyrandom
+
+        import numpy.random as npr
+
         for obj, name, val in reversed(self.saved):
             setattr(obj, name, val)
         H = None
+        now = (_freeze(npr.get_state()), pyrandom.getstate())
+        if now[0] != self._real_state[0]:
+            self.h.untraced.append("numpy.random")
+        if now[1] != self._real_state[1]:
+            self.h.untraced.append("random")
         return False
+
+
+def _freeze(state):
+    return tuple(x.tobytes() if hasattr(x, "tobytes") else x for x in state)
